@@ -4,10 +4,16 @@ EXTENDS Naturals, Sequences, FiniteSets, TLC, Json, IOUtils
 Events == ndJsonDeserialize(IOEnv.EVENTS)
 VARIABLES l, nontriv, failed
 vars == <<l, nontriv, failed>>
+L == INSTANCE Lexical
+(* a leaf of a date / time / numeric datatype (SubComponent(datatype, value)): what STRICT accepts is lexically valid *)
+LexicalDts == {"DT", "TM", "DTM", "NM", "SI"}
+InvalidAccepted(e) == /\ e.out_s = "ok" /\ e.leafdt \in LexicalDts /\ e.leafin # <<>>
+                      /\ ~L!Is(e.leafdt, e.leafin) /\ ~L!Unspecified(e.leafdt, e.leafin)
 (* the maximum lengths HL7 gives the textual datatypes (a leaf built through SubComponent(datatype, value)) *)
 HL7Max(dt) == CASE dt = "ST" -> 199 [] dt = "IS" -> 20 [] dt = "FT" -> 65536 [] dt = "TX" -> 65536 [] OTHER -> 0
 Verdict(e) ==
-  IF e.out_s = "ok" /\ HL7Max(e.leafdt) > 0 /\ e.leaflen > HL7Max(e.leafdt) THEN "overlong_value_accepted_by_strict"
+  IF InvalidAccepted(e) THEN "invalid_value_accepted_by_strict"
+  ELSE IF e.out_s = "ok" /\ HL7Max(e.leafdt) > 0 /\ e.leaflen > HL7Max(e.leafdt) THEN "overlong_value_accepted_by_strict"
   ELSE IF e.out_s # "ok" /\ HL7Max(e.leafdt) > 0 /\ e.leaflen <= HL7Max(e.leafdt) /\ e.out_s = "MaxLengthReached"
        THEN "value_within_the_maximum_length_refused_by_strict"
   ELSE IF e.out_s # "ok" THEN "ok"                       \* STRICT refused: nothing is claimed
